@@ -46,7 +46,7 @@ def run(tier, seed):
                       'parser returns a tree or a reported error, whole examples are accepted; (3) every repository example and the '
                       'generated timeline / causal / temporal families, and sessions of several read(script) calls in which a script that declares a predicate / class / enum / method fails in a later phase (unknown predicate, identifier, type, field, method, syntax error), the client catches the reported error and goes on with scripts that use the declarations, and programs that apply every operator to operands of the wrong kind (incl. the precedence traps x < 5 | y >= 1 and x != 0 | b), through read() + solve() in a Debug build (assertions on) and '
                       'in an AddressSanitizer + UndefinedBehaviorSanitizer build: no abort, failed assertion, uncaught exception, '
-                      'sanitizer report or leak; (4) seeded network API histories in the sanitizer build. distinct_nontrivial = '
+                      'sanitizer report or leak; (4) seeded network API histories, and every transition of the model SatCoreImpl (spec/SatCoreGen.tla), in the sanitizer build. distinct_nontrivial = '
                       'distinct inputs / programs / histories run')
     ev.assumptions = ['memory errors and leaks are observed through the sanitizers, not decided by the specification',
                       'the time budget per lexer input is 2 s, per parser input 3 s, per problem 20 s (quick) / 90 s (thorough)']
@@ -108,6 +108,10 @@ def run(tier, seed):
             clean = [(n, ls) for n, ls in res if not any('"e":"rejected"' in ln or '"e":"error"' in ln for ln in ls)]
             if plancheck.validate_results(ev, PROP, slim, cfg) or plancheck.check_leaks(ev, PROP, clean, cfg):
                 return 1
+        # (4b) every transition of the implementation-shaped model of the sat core, replayed under the sanitizers
+        import satreplay
+        if satreplay.run(ev, PROP, tier, ['SatCoreGen_C.cfg', 'SatCoreGen_B.cfg'] if tier == 'quick' else ['SatCoreGen_A1.cfg', 'SatCoreGen_C.cfg'], build='asan'):
+            return 1
         # (4) network API histories under the sanitizers
         ndrv = vlib.build_driver('net_driver', 'asan')
         for i, profile in enumerate(['mix', 'lra', 'idl', 'rdl', 'reify', 'ov']):
